@@ -16,7 +16,7 @@ Definition zabs (t : term) : zt := {|
   z_col := Z.of_nat (cur_col t); z_row := Z.of_nat (cur_row t);
   z_pend := pend t; z_top := Z.of_nat (top t); z_bot := Z.of_nat (bot t);
   z_org := org t; z_nlm := nlm t; z_acs := Z.of_nat (acs t);
-  z_cs0 := cs0 t; z_cs1 := cs1 t; z_ev := []
+  z_cs0 := cs0 t; z_cs1 := cs1 t; z_ins := ins t; z_awm := awm t; z_vis := cur_vis t; z_ckm := ckm t; z_ev := []
 |}.
 
 Local Arguments Z.add : simpl never.
@@ -358,6 +358,24 @@ Print Assumptions tie_execute.
     replays the recorded calls on the model terminal with the model's own primitives and then writes the
     scalar fields back; the tie says that this is exactly what the hand-written model function does. *)
 
+Definition cell_of (t : term) (x : zcell) : cell :=
+  match x with
+  | ZCellNew c => mkCell (Z.to_N c) (tpen t)
+  | ZCellBlank => blank_cell (tpen t)
+  | ZCellChar c => mkCell (Z.to_N c) default_pen
+  end.
+
+Definition erase_of (m : zerase) : erase_mode :=
+  match m with
+  | ZNextChars n => NextChars (Z.to_nat n)
+  | ZFromCursorToEndOfView => FromCursorToEndOfView
+  | ZFromStartOfViewToCursor => FromStartOfViewToCursor
+  | ZWholeView => WholeView
+  | ZFromCursorToEndOfLine => FromCursorToEndOfLine
+  | ZFromStartOfLineToCursor => FromStartOfLineToCursor
+  | ZWholeLine => WholeLine
+  end.
+
 Definition run_ev (t : term) (e : zev) : res term :=
   match e with
   | EvTabSet c => Ok (t <| tabs := tabs_set (Z.to_nat c) (tabs t) |>)
@@ -368,13 +386,21 @@ Definition run_ev (t : term) (e : zev) : res term :=
   | EvBufScrollDown a b n =>
     on_buf t (fun bf => buf_scroll_down bf (Z.to_nat a) (Z.to_nat b) (Z.to_nat n) (tpen t))
   | EvDirtyExtend a b => mark_range t (Z.to_nat a) (Z.to_nat b)
+  | EvBufPrint c r x => on_buf t (fun bf => buf_print bf (Z.to_nat c) (Z.to_nat r) (cell_of t x))
+  | EvBufInsert c r n x =>
+    on_buf t (fun bf => buf_insert bf (Z.to_nat c) (Z.to_nat r) (Z.to_nat n) (cell_of t x))
+  | EvBufDelete c r n => on_buf t (fun bf => buf_delete bf (Z.to_nat c) (Z.to_nat r) (Z.to_nat n) (tpen t))
+  | EvBufErase c r m => on_buf t (fun bf => buf_erase bf (Z.to_nat c) (Z.to_nat r) (erase_of m) (tpen t))
+  | EvBufWrap r => on_buf t (fun bf => buf_wrap bf (Z.to_nat r))
+  | EvDirtyAdd r => mark t (Z.to_nat r)
   end.
 
 Definition zput (z : zt) (t : term) : term :=
   t <| cols := Z.to_nat (z_cols z) |> <| rows := Z.to_nat (z_rows z) |>
     <| cur_col := Z.to_nat (z_col z) |> <| cur_row := Z.to_nat (z_row z) |> <| pend := z_pend z |>
     <| top := Z.to_nat (z_top z) |> <| bot := Z.to_nat (z_bot z) |> <| org := z_org z |>
-    <| nlm := z_nlm z |> <| acs := Z.to_nat (z_acs z) |> <| cs0 := z_cs0 z |> <| cs1 := z_cs1 z |>.
+    <| nlm := z_nlm z |> <| acs := Z.to_nat (z_acs z) |> <| cs0 := z_cs0 z |> <| cs1 := z_cs1 z |>
+    <| ins := z_ins z |> <| awm := z_awm z |> <| cur_vis := z_vis z |> <| ckm := z_ckm z |>.
 
 Definition zrun (z : zt) (t : term) : res term :=
   t' <- foldM run_ev (rev (z_ev z)) t ;; Ok (zput z t').
